@@ -138,7 +138,7 @@ def handle (s : State) (j : Json) : R (State × Json) := do
       let dt ← fldNat j "dt"
       let (s', outs) := apply s (.step dt)
       let fired := (armedTasks (advance (run s).1 dt)).filter (fun k => k.t ≤ (advance (run s).1 dt).now)
-      let kinds := fired.map (fun k => match k.ref with | .expiry _ => "x" | .periodic _ => "p")
+      let kinds := fired.map (fun k => match k.ref with | .expiry .. => "x" | .periodic .. => "p")
       pure (s', reply s' outs s!"step:{String.join (kinds.take 3)}:n{nOuts outs}")
   | "read" =>
       let rows := activeList s
